@@ -8,11 +8,12 @@ Cable (`plugin/elasticity/cable.cc`): theorems about the kernels *generated from
 (`MjProof/Gen/CablePlugin.lean`) composed as `Cable::Compute` composes them (`MjProof/Model/Cable.lean`).
 
 The state-tracking theorems (`integral_state_tracks`, `setpoint_state_tracks`, `consecutive_setpoints_slew_bounded`,
-`integral_in_imax`) need the engine to advance the plugin's activation slots by the Euler rule, i.e.
-`dyntype ≠ filterexact`: for filterexact `mj_nextActivation` advances *all* activations of the actuator, including the
-two plugin-owned ones, with the exact-filter formula, and the slew bound between consecutive steps is then false
-(the property oracle of checks/c51.py exhibits concrete inputs).  `integral_in_imax_filterexact` shows what
-survives in that case.
+`integral_in_imax`) need the engine to advance the plugin's activation slots by the Euler rule (`OwnEuler`:
+`dyntype ≠ filterexact`, or an engine whose exact-filter rule is restricted to the native activation).  In the tree
+as it stands `mj_nextActivation` advances *all* activations of a filterexact actuator, including the two
+plugin-owned ones, with the exact-filter formula, and the slew bound between consecutive steps is then false (the
+property oracle of checks/c51.py exhibits concrete inputs).  `integral_in_imax_filterexact` shows what survives
+in that case.
 -/
 namespace MjProof.C51
 open MjProof MjProof.Pid
@@ -50,7 +51,8 @@ theorem integral_used_in_imax (c : Cfg ℝ) (s : St ℝ) (e M : ℝ) (hM : c.ima
 /-- documented form of the clamp: with the attribute `imax = F ≥ 0` (a force) and `ki > 0`, `Create` stores
 `i_max = F/ki` and the force contributed by the I term lies in `[-F, F]` -/
 theorem iterm_force_in_imax (kp ki kd F dt tau : ℝ) (slew : Option ℝ) (dyn : Dyn) (early : Bool) (clim : Option (ℝ × ℝ))
-    (hki : 0 < ki) (hF : 0 ≤ F) (c : Cfg ℝ) (hc : create? kp ki kd (some F) slew dt dyn tau early clim = some c)
+    (hki : 0 < ki) (hF : 0 ≤ F) (c : Cfg ℝ) (own : Bool)
+    (hc : create? kp ki kd (some F) slew dt dyn tau early clim own = some c)
     (s : St ℝ) (e : ℝ) : |c.ki * integralOf c s e| ≤ F := by
   have hk : (MjNum.beq ki (MjNum.ofInt 0 : ℝ)) = false := by simp [hki.ne']
   have hfields : c.imax = some (F / ki) ∧ c.ki = ki := by
@@ -73,7 +75,7 @@ theorem iterm_force_in_imax (kp ki kd F dt tau : ℝ) (slew : Option ℝ) (dyn :
 
 example : create? (40 : ℝ) 40 4 (some 1) (some 3) (1 / 500) Dyn.none 0 false none =
     some { kp := 40, ki := 40, kd := 4, imax := some (1 / 40), slew := some 3, dt := 1 / 500, dyn := Dyn.none, tau := 0,
-           early := false, clim := none } := by
+           early := false, clim := none, ownExact := true } := by
   simp [create?]
 
 /-- **slew limit**: whenever a previous setpoint exists (`time > 0`), the setpoint used by the controller is within
@@ -88,32 +90,32 @@ theorem setpoint_slew_bounded (c : Cfg ℝ) (s : St ℝ) (i : In ℝ) (early : B
 
 /-- the previous-setpoint slot stores the setpoint just used (Euler-advanced activations, `dt ≠ 0`) -/
 theorem setpoint_state_tracks (c : Cfg ℝ) (s : St ℝ) (i : In ℝ) (r : ℝ) (hr : c.slew = some r)
-    (hdyn : c.dyn ≠ Dyn.filterexact) (hdt : c.dt ≠ 0) : (step c s i).next.actP = getCtrl c s i false := by
+    (hdyn : OwnEuler c) (hdt : c.dt ≠ 0) : (step c s i).next.actP = getCtrl c s i false := by
   simp only [step, hr]
-  rw [nextAct_euler c hdyn]
+  rw [nextOwn_euler c hdyn]
   exact euler_roundtrip _ _ _ hdt
 
 /-- **slew limit between consecutive steps**: for every state and every two consecutive inputs, the setpoint of
 the second step differs from the setpoint of the first by at most `slewmax · timestep` -/
 theorem consecutive_setpoints_slew_bounded (c : Cfg ℝ) (s : St ℝ) (i1 i2 : In ℝ) (early : Bool) (r : ℝ)
-    (hr : c.slew = some r) (hr0 : 0 ≤ r) (hdyn : c.dyn ≠ Dyn.filterexact) (hdt : 0 < c.dt) (ht : 0 < i2.time) :
+    (hr : c.slew = some r) (hr0 : 0 ≤ r) (hdyn : OwnEuler c) (hdt : 0 < c.dt) (ht : 0 < i2.time) :
     |getCtrl c (step c s i1).next i2 early - getCtrl c s i1 false| ≤ r * c.dt := by
   rw [← setpoint_state_tracks c s i1 r hr hdyn hdt.ne']
   exact setpoint_slew_bounded c _ i2 early r hr hr0 hdt.le ht
 
 /-- the integral slot stores the clamped running integral just used by `ActDot` (Euler-advanced, `dt ≠ 0`) -/
 theorem integral_state_tracks (c : Cfg ℝ) (s : St ℝ) (i : In ℝ) (hki : c.ki ≠ 0)
-    (hdyn : c.dyn ≠ Dyn.filterexact) (hdt : c.dt ≠ 0) :
+    (hdyn : OwnEuler c) (hdt : c.dt ≠ 0) :
     (step c s i).next.actI = integralOf c s (getCtrl c s i false - i.len) := by
   have hI : hasI c = true := (hasI_iff c).mpr hki
   simp only [step, hI, if_true]
-  rw [nextAct_euler c hdyn]
+  rw [nextOwn_euler c hdyn]
   exact euler_roundtrip _ _ _ hdt
 
 /-- **integral clamp as a state invariant**: for every control sequence and every initial state, after each
 step the integral activation lies in `[-i_max, i_max]` -/
 theorem integral_in_imax (c : Cfg ℝ) (M : ℝ) (hM : c.imax = some M) (h0 : 0 ≤ M) (hki : c.ki ≠ 0)
-    (hdyn : c.dyn ≠ Dyn.filterexact) (hdt : c.dt ≠ 0) (s : St ℝ) (is : List (In ℝ)) :
+    (hdyn : OwnEuler c) (hdt : c.dt ≠ 0) (s : St ℝ) (is : List (In ℝ)) :
     ∀ o ∈ runSeq c s is, -M ≤ o.next.actI ∧ o.next.actI ≤ M := by
   induction is generalizing s with
   | nil => simp [runSeq]
@@ -128,12 +130,12 @@ theorem integral_in_imax (c : Cfg ℝ) (M : ℝ) (hM : c.imax = some M) (h0 : 0 
 /-- with dyntype filterexact the engine advances the integral slot by a contraction towards the clamped
 integral, so the clamp range is still invariant once the state is inside it (`dt > 0`, `tau ≥ mjMINVAL`) -/
 theorem integral_in_imax_filterexact (c : Cfg ℝ) (M : ℝ) (hM : c.imax = some M) (h0 : 0 ≤ M) (hki : c.ki ≠ 0)
-    (hdyn : c.dyn = Dyn.filterexact) (hdt : 0 < c.dt) (s : St ℝ) (i : In ℝ)
+    (hdyn : c.dyn = Dyn.filterexact) (hown : c.ownExact = true) (hdt : 0 < c.dt) (s : St ℝ) (i : In ℝ)
     (hs : -M ≤ s.actI ∧ s.actI ≤ M) : -M ≤ (step c s i).next.actI ∧ (step c s i).next.actI ≤ M := by
   have hI : hasI c = true := (hasI_iff c).mpr hki
   obtain ⟨hlo, hhi⟩ := integralOf_mem c s (getCtrl c s i false - i.len) M hM h0
   set I := integralOf c s (getCtrl c s i false - i.len) with hIdef
-  simp only [step, hI, if_true, nextAct, hdyn]
+  simp only [step, hI, if_true, nextOwn, nextAct, hdyn, hown, and_self]
   set tau : ℝ := MjNum.max (MjNum.ofSci 1 true 15) c.tau with htau
   have htau0 : 0 < tau := by
     simp only [htau, MjNum.max]
